@@ -17,10 +17,11 @@ VALUE, LIB_EXC, FOREIGN_EXC = 'VALUE', 'LIB_EXC', 'FOREIGN_EXC'
 
 
 class Outcome:
-    __slots__ = ('kind', 'value', 'exc', 'phase', 'tb')
+    __slots__ = ('kind', 'value', 'exc', 'phase', 'tb', 'second')
 
     def __init__(self, kind, value=None, exc=None, phase=None, tb=None):
         self.kind, self.value, self.exc, self.phase, self.tb = kind, value, exc, phase, tb
+        self.second = None      # outcome of asking the same Parser once more after a refusal (see translate)
 
     @property
     def ok(self):
@@ -67,9 +68,27 @@ def make_parser(path, entry=None, safety=False):
     return p
 
 
-def translate(path, entry=None, safety=False):
-    """-> Outcome whose value is the source text"""
-    return guarded(lambda: make_parser(path, entry, safety).get_translation(), 'translate')
+def translate(path, entry=None, safety=False, ask_again=True):
+    """-> Outcome whose value is the source text.  A Parser that refused (library exception) is asked once more without any
+    setter call in between; that second answer is kept in Outcome.second: a refusal must be repeatable - the same request must
+    not suddenly yield None, a stale class or a foreign exception (history-dependent loss of a rejection)."""
+    p = guarded(lambda: make_parser(path, entry, safety), 'translate')
+    if not p.ok:
+        return p
+    o = guarded(lambda: p.value.get_translation(), 'translate')
+    if ask_again and o.kind == LIB_EXC:
+        o.second = guarded(lambda: p.value.get_translation(), 'translate')
+    return o
+
+
+def refusal_repeatable(o):
+    """None if fine, else a description of how the second answer of the same Parser differs from its refusal"""
+    s = getattr(o, 'second', None)
+    if s is None:
+        return None
+    if s.kind == LIB_EXC and type(s.exc) is type(o.exc):
+        return None
+    return {'first': o.brief(), 'second': s.brief() if s.kind != VALUE else {'kind': 'VALUE', 'type': type(s.value).__name__, 'len': len(s.value) if isinstance(s.value, str) else None}}
 
 
 def load_text(text, name='<generated>'):
